@@ -3,7 +3,7 @@
    Util/Closure.v), Syn/SetsSpec.v (declarative definitions + naive executable specification).
    Lemmas: Syn/Sets_proofs.v, Syn/SetsSpec_proofs.v. *)
 From Coq Require Import List ZArith Bool.
-From TM Require Import Gram.Cfg Syn.Expr Syn.ExtLang Syn.Sets Syn.SetsSpec Syn.Sets_proofs Syn.SetsSpec_proofs.
+From TM Require Import Gram.Cfg Syn.Expr Syn.ExtLang Syn.Sets Syn.SetsSpec Syn.Sets_proofs Syn.SetsSpec_proofs Syn.SetsSpec_proofs2.
 Import ListNotations.
 Local Open Scope Z_scope.
 
@@ -16,7 +16,7 @@ Local Open Scope Z_scope.
    provide yet.  PROVED below:
      - the model of isNullable decides "derives the empty string" for every rule body (universal);
      - the executable specification tables used as the oracle are EXACTLY the inductive definitions
-       nullable_in / first_in / last_in whenever their run-time stability check passes (P3: a proved
+       nullable_in / first_in / last_in / any_in / follow_in / precede_in whenever their run-time stability check passes (P3: a proved
        oracle, universal in the grammar).
    CHECKED PER RUN: model = syntax.ResolveSets (sets, rewritten set nonterminals, offending complements);
    implementation's sets = naive stratified fixpoint of the eagerly generated declarative system
@@ -31,18 +31,26 @@ Theorem C15_is_nullable_decides_empty :
       (is_nullable nl e = true <-> den T rho setden e []).
 Proof. exact is_nullable_exact. Qed.
 
-(* the oracle's tables are the inductive definitions *)
+(* the oracle's tables are the inductive definitions, for all five operators *)
 Theorem C15_sets_exact_partial :
   forall T rules nl,
     spec_nullable rules = Some nl ->
     (forall r, In r rules -> T <= fst r) ->
     (forall X, mem X nl = true <-> nullable_in rules X) /\
     (forall t, spec_first T nl rules = Some t -> forall s a, mem a (sym_val T t s) = true <-> first_in T rules s a) /\
-    (forall t, spec_last T nl rules = Some t -> forall s a, mem a (sym_val T t s) = true <-> last_in T rules s a).
+    (forall t, spec_last T nl rules = Some t -> forall s a, mem a (sym_val T t s) = true <-> last_in T rules s a) /\
+    (forall t, spec_any T rules = Some t -> forall s a, mem a (sym_val T t s) = true <-> any_in T rules s a) /\
+    (forall ft t, spec_first T nl rules = Some ft -> spec_follow T nl ft rules = Some t ->
+                  forall s a, mem a (tget t s) = true <-> follow_in T rules s a) /\
+    (forall lt t, spec_last T nl rules = Some lt -> spec_precede T nl lt rules = Some t ->
+                  forall s a, mem a (tget t s) = true <-> precede_in T rules s a).
 Proof.
-  intros T rules nl Hn Hl. pose proof (spec_nullable_exact rules nl Hn) as H. split; [exact H|]. split.
+  intros T rules nl Hn Hl. pose proof (spec_nullable_exact rules nl Hn) as H. split; [exact H|]. split; [|split; [|split; [|split]]].
   - intros t Ht. exact (spec_first_exact T rules nl H Hl t Ht).
   - intros t Ht. exact (spec_last_exact T rules nl H Hl t Ht).
+  - intros t Ht. exact (spec_any_exact T rules Hl t Ht).
+  - intros ft t Hf Ht. exact (spec_follow_exact T rules nl H ft (spec_first_exact T rules nl H Hl ft Hf) t Ht).
+  - intros lt t Hlt Ht. exact (spec_precede_exact T rules nl lt t H Hl (spec_last_exact T rules nl H Hl lt Hlt) Ht).
 Qed.
 
 (* non-vacuity.  terminals a b c = 0 1 2;  N0 (3): N1 a | b ;  N1 (4): %empty | c N1 ;  input N0 *)
